@@ -118,6 +118,8 @@ def rule_acts0(rng: random.Random, mode: str = 'mixed'):
 
 def kinds(core_only: bool = False, raisers: bool = True):
     ks = [
+        ('seq1', 1, lambda x: P('seq', x), 'core'),           # the one-element form has a code path of its own (no mark, the caller's mode passed on)
+        ('sor1', 1, lambda x: P('sor', x), 'core'),
         ('seq2', 2, lambda x, y: P('seq', x, y), 'core'),
         ('seq3', 3, lambda x, y, z: P('seq', x, y, z), 'core'),
         ('sor2', 2, lambda x, y: P('sor', x, y), 'core'),
@@ -179,6 +181,7 @@ def kinds(core_only: bool = False, raisers: bool = True):
             ('if_apply1', 1, lambda x: P('if_apply', x, *rule_acts(r0)), 'apply'),
             ('if_apply1v', 1, lambda x: P('if_apply', x, *rule_acts(r0, 'void')), 'apply'),
             ('if_apply_veto', 1, lambda x: P('if_apply', x, RACT(_next_ract(), True, 1)), 'apply'),                      # always returns false
+            ('if_apply_void_then_false', 1, lambda x: P('if_apply', x, RACT(_next_ract()), RACT(_next_ract(), True, 1)), 'apply'),   # a void action, then one that always returns false
             ('if_apply_void_veto', 1, lambda x: P('if_apply', x, RACT(_next_ract()), RACT(_next_ract(), True, 2)), 'apply'),    # void, then false on some spans
             ('if_apply_throw', 1, lambda x: P('if_apply', x, RACT(_next_ract(), False, 0, 3, True)), 'apply'),
             ('seq_apply', 1, lambda x: P('seq', x, P('apply', *rule_acts(r0))), 'apply'),
